@@ -117,7 +117,7 @@ def check(case):
         mi = common.solved(ideal)
     except build.Rejected as e:
         return Result(skipped='rejected: ' + str(e)[:50])
-    if m.power <= 0:
+    if not common.net_power_ok(m):
         return Result(skipped='sources deliver no net power')
     topo = build.ref_topology(case, m)
     circular = env.get('boundary') == 'circular' or bool(env.get('radials'))
